@@ -416,6 +416,10 @@ def cycle_catalogue():
         progs[f"include_cycle_{n}"] = inc
     progs["fortran_include_self"] = {"a.f90": "integer :: top\ninclude 'a.f90'\n"}
     progs["fortran_include_pair"] = {"a.f90": "integer :: ta\ninclude 'b.f90'\n", "b.f90": "integer :: tb\ninclude 'a.f90'\n"}
+    for n in (2, 3):
+        progs[f"fortran_include_blocks_{n}"] = {
+            f"a{i}.f90" if i else "a.f90": f"integer :: x{i}\nassociate (u{i} => x{i})\ninclude '{'a.f90' if (i + 1) % n == 0 else f'a{(i + 1) % n}.f90'}'\nend associate\n"
+            for i in range(n)}
     progs["procedure_arg_self"] = {"a.f90": "subroutine s(p)\n  procedure(s) :: p\n  call p(p)\nend subroutine s\n"}
     old = sys.getrecursionlimit()
     methods = ["hover", "definition", "implementation", "references", "documentHighlight", "rename",
@@ -483,6 +487,40 @@ def extra(repo, reg, tier, seed):
                            f"loops that add children iterate over a copy of the children list: {detail}", fi.where(),
                            func=fi.qualname, witness={"iterables": detail,
                                                       "reason": "a loop appends to a children list while iterating a children list (same list for a self-including file)"}))
+    # re-parenting: add_child/set_parent on objects that are not freshly constructed must not close a parent cycle.
+    # The only such site is resolve_includes (children of an included file's scope are adopted by the including scope).
+    ok = False
+    for n in ast.walk(fi.node):
+        if isinstance(n, ast.If) and "links_back(parent_scope, 'parent')" in ast.unparse(n.test) \
+                and n.body and isinstance(n.body[-1], ast.Continue):
+            # the guard must come before the add_child call in the same loop body
+            loop = next((l for l in fi.loops() if any(x is n for x in ast.walk(l))), None)
+            if loop is not None:
+                adds = [c for c in ast.walk(loop) if isinstance(c, ast.Call) and isinstance(c.func, ast.Attribute)
+                        and c.func.attr == "add_child"]
+                ok = bool(adds) and all(a.lineno > n.lineno for a in adds)
+    items.append(term.item("C20/ast.FortranAST.resolve_includes/shape.acyclic[parent]", ok,
+                           "adopting the children of an included scope is guarded by `child.links_back(parent_scope, "
+                           "'parent')` (a scope never becomes its own ancestor)", fi.where(), func=fi.qualname,
+                           witness={"reason": "parent_scope.add_child(child) on an existing object without the "
+                                              "links_back(..., 'parent') guard: mutually including files make two "
+                                              "scopes each other's parent"}))
+    adopters = []
+    for q, fe in eff.funcs.items():
+        if not q.startswith(P) or q.startswith(P + "parser.") or q.endswith(".__init__"):
+            continue
+        for name, node in fe.externals + [(c, n) for c, n in fe.calls]:
+            if isinstance(node.func, ast.Attribute) and node.func.attr in ("add_child", "set_parent"):
+                adopters.append(q)
+    reviewed = {P + "ast.FortranAST.resolve_includes", P + "ast.FortranAST.add_scope", P + "ast.FortranAST.add_variable",
+                P + "ast.FortranAST.add_int_member", P + "scope.Scope.add_child", P + "intrinsics.load_intrinsics.add_children",
+                P + "intrinsics.Intrinsic.add_child", P + "intrinsics.create_object", P + "intrinsics.load_intrinsics.create_object",
+                P + "intrinsics.load_intrinsics.create_int_object", P + "intrinsics.get_intrinsic_keywords"}
+    extra_ad = sorted(set(adopters) - reviewed)
+    items.append(term.item("C20/heap/shape.adopters[parent|children]", not extra_ad,
+                           f"functions (outside the parser, which only links freshly created objects) that call "
+                           f"add_child/set_parent: {sorted(set(short(a) for a in adopters))}",
+                           witness={"unreviewed": extra_ad}))
     w = cycle_catalogue()
     items.append(Item("C20/session/native_cycle_catalogue", "refuted" if w else "bounded-ok", "native-run(bounded)",
                       0.0, mode="bounded", witness=w, confirmed=True if w else None,
